@@ -144,3 +144,45 @@ func VerifC10cQuery(t, h int) {
 	settle()
 	verifrt.Reach("survived")
 }
+
+var c10Commands = []string{
+	"tail:quiet=true /var/log/x.log regex:noop ",
+	"cat:quiet=true /var/log/x.log regex:noop ",
+	".ack close connection",
+	"map select count(x) from T group by g",
+	"grep:before=1:after=1 /var/log/x.log regex:default foo",
+	"health",
+	".ack close",
+}
+
+// VerifC10dSequence: k well-formed commands in one session, in every order
+// (with repetitions), with a symbolic pause between them: a session that
+// already runs commands must survive whatever else the client sends.
+func VerifC10dSequence(k, subset int) {
+	dlog.VerifInstall(source.Server)
+	c10KnownPanics()
+	h := VerifNewServerHandler(false, false, false, 2, 2)
+	// the client side: it consumes what the server sends
+	go func() {
+		p := make([]byte, 4096)
+		for {
+			if _, err := h.Read(p); err != nil {
+				return
+			}
+		}
+	}()
+	for i := 0; i < k; i++ {
+		n := len(c10Commands)
+		if subset == 1 {
+			n = 3 // tail, cat, .ack close connection: the commands that interact through the session state
+		}
+		cmd := c10Commands[verifrt.Choose("command", n)]
+		c10Payload = cmd
+		h.Write([]byte("protocol 4.1 base64 @;"))
+		if verifrt.Bool("pause") {
+			verifrt.Sleep(2 * time.Second)
+		}
+	}
+	verifrt.Sleep(70 * time.Second)
+	verifrt.Reach("survived")
+}
